@@ -51,6 +51,46 @@ class Spec(SeqSpec):
         return probs
 
 
+class TwoHandleSpec(Spec):
+    """Sequential histories through two handles, maintenance operations included: a handle whose index snapshot was pinned by an
+    earlier query acts after the other handle has written. An operation may refuse (raise); the on-disk invariants and the
+    recoverability of every acknowledged object must hold after every step."""
+    nhandles = 2
+    with_sources = False
+    tolerate_exceptions = True
+
+    def __init__(self, tier):
+        super().__init__(tier)
+        self.depth = 3 if tier == 'quick' else 4
+        self.max_variants = 1 if tier == 'quick' else 2
+        self._roots = [('empty-2h', {}, []),
+                       ('h0-packed-pinned-2h', {}, [('on', 0, ('topack', (1, 2), False, False, True)), ('on', 0, ('q', 'count'))])]
+
+    def core_ops(self, root_name):
+        ops = []
+        for h in (0, 1):
+            ops += [('on', h, ('q', 'count')), ('on', h, ('add', 1)), ('on', h, ('topack', (2, 3), False, False, True)),
+                    ('on', h, ('pack', 'NO', False, True)), ('on', h, ('clean', False)), ('on', h, ('repack', 'KEEP'))]
+        return ops
+
+    def variant_ops(self, root_name):
+        ops = []
+        for h in (0, 1):
+            ops += [('on', h, ('q', 'has')), ('on', h, ('topack', (1,), True, True, False)), ('on', h, ('pack', 'YES', True, True)),
+                    ('on', h, ('repack_pack', 0, 'YES')), ('on', h, ('add', 3)), ('on', h, ('loosen', 2)), ('on', h, ('delete', (1,))),
+                    ('on', h, ('delete', (2, 3)))]
+        return ops
+
+    def state_check(self, world, raw, hist):
+        probs = list(invariants(raw))
+        for k, content in world.model.mapping().items():
+            if k in world.uncertain:
+                continue        # a deletion of this key raised half-way: it may or may not exist
+            if raw.object_bytes(k) != content:
+                probs.append(('manual-recovery', f'acknowledged object {k[:10]} can no longer be recovered from disk'))
+        return probs
+
+
 def run(tier, report):
     spec = Spec(tier)
     report.assumptions += [
@@ -72,10 +112,19 @@ def run(tier, report):
             report.coverage[k] += sub.coverage[k]
         report.coverage['per_root'].update(sub.coverage['per_root'])
         report.coverage['exhaustive'] = report.coverage['exhaustive'] and sub.coverage['exhaustive']
+    if not report.violations:
+        from ..report import Report
+        sub = Report('C03', tier, LEVEL)
+        explore(TwoHandleSpec(tier), sub)
+        report.violations += sub.violations
+        for k in ('states', 'transitions', 'traces_validated_against_impl', 'states_checked'):
+            report.coverage[k] += sub.coverage[k]
+        report.coverage['per_root'].update(sub.coverage['per_root'])
+        report.coverage['exhaustive'] = report.coverage['exhaustive'] and sub.coverage['exhaustive']
 
 
 def replay(case):
     from ..seqx import replay_history
-    spec = Spec('thorough')
+    spec = TwoHandleSpec('thorough') if str(case.get('root', '')).endswith('-2h') else Spec('thorough')
     spec.listdir_order = case.get('listdir_order', 'native')
     return replay_history(spec, case['root'], [_tuplify(o) for o in case['history']])
